@@ -53,7 +53,8 @@ REQUIRED_PROBES = {"quick": ["lookup_served_from_cache", "definition_after_first
                              "value_matches_own_definition", "convert_zoneinfo", "convert_pytz",
                              "reparse_of_serialisation", "interleaved_clients", "until_rule", "count_rule",
                              "rdate_observance", "two_eras", "no_tzname", "slash_prefixed_id", "parsed_with_multiple",
-                             "utc_instant_family", "convert_with_process_wide_provider", "tzname_with_language"]}
+                             "utc_instant_family", "convert_with_process_wide_provider", "tzname_with_language",
+                             "converted_again_after_edit"]}
 REQUIRED_PROBES["thorough"] = REQUIRED_PROBES["quick"]
 
 # "sim/a" / "SIM/B" / "SÏM/Ü": other ids than "Sim/A" / "Sim/B" / "Sïm/Ü" (ids are compared as they are written)
@@ -129,8 +130,13 @@ def generate(rng, cfg):
             trace.append([c, "parse_doc", {"doc": rng.randrange(docs), "slot": slot}])
         elif op == "convert":
             # with a provider object of its own, or with the process-wide one (whatever provider that is just now)
-            trace.append([c, "convert", {"def": rng.randrange(len(defs)), "provider": rng.choice(["zoneinfo", "pytz"]),
-                                         "global": rng.random() < 0.5}])
+            step = {"def": rng.randrange(len(defs)), "provider": rng.choice(["zoneinfo", "pytz"]),
+                    "global": rng.random() < 0.5}
+            if rng.random() < 0.3:
+                # the component is converted, an observance is renamed in place, and it is converted again
+                step["edit"] = {"ob": rng.randrange(len(defs[step["def"]]["def"]["obs"])),
+                                "name": "E" + "".join(rng.choice("ABCDEFGHKLMN") for _ in range(3))}
+            trace.append([c, "convert", step])
         elif op == "provider_switch":
             trace.append(["env", "provider_switch", {"p": rng.choice(["zoneinfo", "pytz"])}])
         else:
@@ -442,10 +448,21 @@ def execute(run, res):
                 cache.define(d["tzid"], a["def"])      # from_ical caches as a side effect
                 if a.get("global"):
                     from icalendar.timezone import tzp as _global_tzp
-                    tz = comp.to_tz(_global_tzp, lookup_tzid=False)
+                    P_ = _global_tzp
                     res.probe("convert_with_process_wide_provider")
                 else:
-                    tz = comp.to_tz(TZP(a["provider"]), lookup_tzid=False)
+                    P_ = TZP(a["provider"])
+                tz = comp.to_tz(P_, lookup_tzid=False)
+                if a.get("edit") and a["edit"]["ob"] < len(comp.subcomponents):
+                    # edit below the VTIMEZONE (the component itself is not told), then convert the same object again
+                    import copy as _copy
+                    from icalendar.prop import vText as _vText
+                    comp.subcomponents[a["edit"]["ob"]]["TZNAME"] = _vText(a["edit"]["name"])
+                    d = _copy.deepcopy(d)
+                    d["obs"][a["edit"]["ob"]]["name"] = a["edit"]["name"]
+                    d["obs"][a["edit"]["ob"]].pop("lang", None)
+                    tz = comp.to_tz(P_, lookup_tzid=False)
+                    res.probe("converted_again_after_edit")
             except Exception as e:
                 res.violate(f"C12/convert/{a['provider']}/raised:{type(e).__name__}", stepno, repr(e)[:300])
                 continue
